@@ -578,3 +578,185 @@ Proof.
 Qed.
 
 End Layer2.
+
+(* ---------------------------------------------------------------------- *)
+(* positions, sanitising calls, letter case *)
+
+Lemma Forall2_In_l {A B} (R : A -> B -> Prop) l l' x :
+  Forall2 R l l' -> In x l -> exists y, In y l' /\ R x y.
+Proof.
+  induction 1 as [|a b l l' Hab _ IH]; intros Hin; [contradiction|].
+  destruct Hin as [<-|Hin].
+  - exists b. split; [now left|assumption].
+  - destruct (IH Hin) as (y & Hy & Hr). exists y. split; [now right|assumption].
+Qed.
+
+Section Secondary.
+Variable roots : list utree.
+Variable funcs : list string.
+
+Notation FINAL := (final roots).
+Notation INNER := (inner roots funcs).
+
+(* -- positions -- *)
+
+Lemma chain_root x : forall ch, chain_of x = Some ch ->
+  exists n, root_var x = Some (ch_pos ch, n) /\ etok x = ch_pos ch /\ ch_root ch = lower n.
+Proof.
+  induction x using expr_ind'; intros ch Hc; try discriminate.
+  - cbn in Hc. inversion Hc; subst; cbn. eauto.
+  - cbn in Hc. destruct (chain_of x) as [c0|]; [|discriminate]. inversion Hc; subst; cbn.
+    destruct (IHx c0 eq_refl) as (m & ? & ? & ?). eauto.
+  - cbn in Hc. destruct (chain_of x) as [c0|]; [|discriminate]. inversion Hc; subst; cbn.
+    destruct (IHx c0 eq_refl) as (m & ? & ? & ?). eauto.
+  - rewrite chain_of_index in Hc. destruct (chain_of x1) as [c0|]; [|discriminate]. inversion Hc; subst; cbn.
+    destruct (IHx1 c0 eq_refl) as (m & ? & ? & ?). eauto.
+Qed.
+
+Lemma subterms_refl e : In e (subterms e).
+Proof. destruct e; cbn; now left. Qed.
+
+Lemma top_sub e ch : In ch (top_chain e) -> chain_of e = Some ch.
+Proof. unfold top_chain. destruct (chain_of e); cbn; [intros [<-|[]]; reflexivity|intros []]. Qed.
+
+Definition has_chain (e : expr) (ch : chain) : Prop :=
+  exists x, In x (subterms e) /\ chain_of x = Some ch.
+
+Lemma all_sub defined e :
+  (forall ch, In ch (sub_chains defined e) -> has_chain e ch) ->
+  forall ch, In ch (sub_chains defined e ++ top_chain e) -> has_chain e ch.
+Proof.
+  intros H ch Hin. apply in_app_or in Hin as [Hin|Hin]; [auto|].
+  exists e. split; [apply subterms_refl|now apply top_sub].
+Qed.
+
+Lemma has_chain_up e c ch : (forall x, In x (subterms c) -> In x (subterms e)) -> has_chain c ch -> has_chain e ch.
+Proof. intros H (x & Hx & Hc). exists x. auto. Qed.
+
+Lemma sub_sub defined e : forall ch, In ch (sub_chains defined e) -> has_chain e ch.
+Proof.
+  induction e using expr_ind'; cbn [sub_chains]; intros ch Hin; try contradiction.
+  - apply (has_chain_up _ e); [intros x Hx; cbn; now right|auto].
+  - apply (has_chain_up _ e); [intros x Hx; cbn; now right|auto].
+  - apply in_app_or in Hin as [Hin|Hin].
+    + apply (has_chain_up _ e2); [intros x Hx; cbn; right; apply in_or_app; now right|].
+      now apply (all_sub defined).
+    + apply (has_chain_up _ e1); [intros x Hx; cbn; right; apply in_or_app; now left|auto].
+  - apply (has_chain_up _ e); [intros x Hx; cbn; now right|]. now apply (all_sub defined).
+  - apply in_app_or in Hin as [Hin|Hin].
+    + apply (has_chain_up _ e1); [intros x Hx; cbn; right; apply in_or_app; now left|]. now apply (all_sub defined).
+    + apply (has_chain_up _ e2); [intros x Hx; cbn; right; apply in_or_app; now right|]. now apply (all_sub defined).
+  - apply in_app_or in Hin as [Hin|Hin].
+    + apply (has_chain_up _ e1); [intros x Hx; cbn; right; apply in_or_app; now left|]. now apply (all_sub defined).
+    + apply (has_chain_up _ e2); [intros x Hx; cbn; right; apply in_or_app; now right|]. now apply (all_sub defined).
+  - destruct (sanitising c); [contradiction|]. destruct (defined c); [|contradiction].
+    apply in_flat_map in Hin as (a & Ha & Hin). rewrite Forall_forall in H.
+    apply (has_chain_up _ a); [intros x Hx; cbn; right; apply in_flat_map; eauto|].
+    apply (all_sub defined); auto.
+Qed.
+
+Theorem untrusted_positions e : parser_normal e ->
+  forall r, In r (reported true roots (events funcs e)) ->
+  exists x ch n, In x (subterms e) /\ chain_of x = Some ch /\ root_var x = Some (etok x, n) /\
+                 fst r = Some (etok x) /\ Permutation (snd r) (reads roots ch) /\ reads roots ch <> [].
+Proof.
+  intros Hn r Hr.
+  destruct (Forall2_In_l _ _ _ _ (untrusted_exact roots funcs e Hn) Hr) as (s & Hs & Hreq & Hperm).
+  unfold spec_paths in Hs. apply in_flat_map in Hs as (ch & Hch & Hs).
+  unfold report_of in Hs. destruct (reads roots ch) as [|q qs] eqn:Erd; [contradiction|].
+  destruct Hs as [<-|[]]. cbn [fst snd] in *.
+  destruct (all_sub (known funcs) e (sub_sub (known funcs) e) ch Hch) as (x & Hx & Hc).
+  destruct (chain_root x ch Hc) as (n & Hrv & Htok & _).
+  exists x, ch, n. rewrite Htok, Erd. repeat split; auto. discriminate.
+Qed.
+
+(* -- sanitising calls -- *)
+
+Theorem safe_calls_silent p c args : is_safe_call c = true ->
+  reported true roots (events funcs (ECall p c args)) = [].
+Proof. intros H. rewrite reported_total. unfold total. cbn [inner final]. now rewrite H. Qed.
+
+Lemma erase_lic i c : leave_index_chain (erase_safe i) c = leave_index_chain i c.
+Proof. destruct i; cbn [erase_safe]; try reflexivity. destruct (sanitising callee); reflexivity. Qed.
+
+Lemma erase_final e : FINAL (erase_safe e) = FINAL e.
+Proof.
+  induction e using expr_ind'; cbn [erase_safe final]; try reflexivity.
+  - now rewrite IHe.
+  - now rewrite IHe.
+  - now rewrite IHe1, erase_lic.
+  - destruct (sanitising c); reflexivity.
+Qed.
+
+Lemma erase_inner e : INNER (erase_safe e) = INNER e.
+Proof.
+  induction e using expr_ind'; cbn [erase_safe inner]; try reflexivity; auto.
+  - now rewrite IHe1, IHe2, erase_final.
+  - now rewrite IHe, erase_final.
+  - now rewrite IHe1, IHe2, !erase_final.
+  - now rewrite IHe1, IHe2, !erase_final.
+  - change (sanitising c) with (is_safe_call c).
+    destruct (is_safe_call c) eqn:E; cbn [inner]; rewrite E; [reflexivity|].
+    destruct (known funcs c); [|reflexivity].
+    induction args as [|a args IHa]; cbn [map flat_map]; [reflexivity|].
+    inversion H as [|? ? Hh Ht]; subst. now rewrite Hh, erase_final, (IHa Ht).
+Qed.
+
+(* what is written inside contains/startsWith/endsWith never matters *)
+Theorem safe_calls_opaque e :
+  reported true roots (events funcs (erase_safe e)) = reported true roots (events funcs e).
+Proof. rewrite !reported_total. unfold total. now rewrite erase_inner, erase_final. Qed.
+
+(* -- letter case -- *)
+
+Lemma recase_lic i i' c : recase i i' ->
+  leave_index_chain (pnorm i) c = leave_index_chain (pnorm i') c.
+Proof.
+  destruct i, i'; cbn [recase]; intros H; try contradiction; try reflexivity.
+  destruct H as [_ Hl]. cbn [pnorm leave_index_chain]. unfold on_index_lit.
+  now rewrite (lower_star s), (lower_star s0), Hl.
+Qed.
+
+Lemma recase_final e : forall e', recase e e' -> FINAL (pnorm e) = FINAL (pnorm e').
+Proof.
+  induction e using expr_ind'; intros e' Hrc; destruct e'; cbn [recase] in Hrc; try contradiction;
+    cbn [pnorm final]; try reflexivity.
+  - destruct Hrc as [-> Hl]. now rewrite Hl.
+  - destruct Hrc as [Hr Hl]. now rewrite Hl, (IHe _ Hr).
+  - now rewrite (IHe _ Hrc).
+  - destruct Hrc as [Ho Hi]. now rewrite (IHe1 _ Ho), (recase_lic _ _ _ Hi).
+Qed.
+
+Lemma safe_lower c c' : lower c = lower c' -> is_safe_call c = is_safe_call c'.
+Proof. unfold is_safe_call. now intros ->. Qed.
+
+Lemma known_lower c c' : lower c = lower c' -> known funcs c = known funcs c'.
+Proof. unfold known. now intros ->. Qed.
+
+Lemma recase_inner e : forall e', recase e e' -> INNER (pnorm e) = INNER (pnorm e').
+Proof.
+  induction e using expr_ind'; intros e' Hrc; destruct e'; cbn [recase] in Hrc; try contradiction;
+    cbn [pnorm inner]; try reflexivity.
+  - destruct Hrc as [Hr _]. auto.
+  - auto.
+  - destruct Hrc as [Ho Hi]. now rewrite (IHe1 _ Ho), (IHe2 _ Hi), (recase_final _ _ Hi).
+  - destruct Hrc as [_ Ha]. now rewrite (IHe _ Ha), (recase_final _ _ Ha).
+  - destruct Hrc as (_ & Hl & Hr). now rewrite (IHe1 _ Hl), (IHe2 _ Hr), (recase_final _ _ Hl), (recase_final _ _ Hr).
+  - destruct Hrc as (_ & Hl & Hr). now rewrite (IHe1 _ Hl), (IHe2 _ Hr), (recase_final _ _ Hl), (recase_final _ _ Hr).
+  - destruct Hrc as (_ & Hc & Hargs). rewrite (safe_lower _ _ Hc), (known_lower _ _ Hc).
+    destruct (is_safe_call callee); [reflexivity|]. destruct (known funcs callee); [|reflexivity].
+    revert args0 Hargs. induction args as [|a args IHa]; intros [|a' args'] Hargs; try contradiction; [reflexivity|].
+    destruct Hargs as [Ha Hrest]. inversion H as [|? ? Hh Ht]; subst. cbn [map flat_map].
+    now rewrite (Hh _ Ha), (recase_final _ _ Ha), (IHa Ht _ Hrest).
+Qed.
+
+(* the letter case of variable, property and function names and of
+   ['name'] literals is irrelevant ([pnorm] is the parser's own lower-casing) *)
+Theorem untrusted_recase e e' : recase e e' ->
+  reported true roots (events funcs (pnorm e)) = reported true roots (events funcs (pnorm e')).
+Proof.
+  intros H. rewrite !reported_total. unfold total.
+  now rewrite (recase_inner _ _ H), (recase_final _ _ H).
+Qed.
+
+End Secondary.
